@@ -49,6 +49,7 @@ fn main() {
                 vh::vmengine::replay(&c, &mut rep);
             }
             "scen" => vh::scenengine::replay(&case, &mut rep),
+            "total" => vh::total::replay(&case, &mut rep),
             "codec" => vh::codec::replay(case.get("bytes").and_then(|b| b.as_str()).unwrap_or(""), &mut rep),
             "vm-bytes" => vh::codec::replay(case.get("bytes").and_then(|b| b.as_str()).unwrap_or(""), &mut rep),
             other => {
@@ -102,6 +103,9 @@ fn main() {
         "codec" => vh::codec::run(&a, &mut rep),
         "formats" => vh::formats::run(&a, &mut rep),
         "scen" => vh::scenengine::run(&a, &mut rep),
+        "total" => vh::total::run(&a, &mut rep),
+        "limits" => vh::limits::run(&a, &mut rep),
+        "sign" => vh::signeng::run(&a, &mut rep),
         _ => usage(),
     }
     rep.finish(t0);
